@@ -678,7 +678,15 @@ def part_functions(chk):
             viols.append(Viol(DEADBRANCH_SIG if DEADBRANCH_MSG in text else "function:%s:%s" % (st.lower(), sigsrc),
                               "%s -> %s %s" % (short, st, text[:300]), DEADBRANCH_REPLAY if DEADBRANCH_MSG in text else replay_code(it, "")))
             continue
-        if text in ("nocompile", "nondeterministic"):
+        if text == "nocompile":
+            # every corpus entry is a valid program / a valid assembler description (they all build on the unchanged
+            # tree); an entry that is rejected is a behaviour change of compile or asm, not a harness problem
+            viols.append(Viol("function:%s:rejected:%s" % ("asm" if src.lstrip().startswith("(asm") else "compile", sigsrc),
+                              "%s no longer builds: a valid %s is rejected" % (
+                                  short, "assembler description" if src.lstrip().startswith("(asm") else "program"),
+                              "(pp (protect %s))\n" % src.strip()))
+            continue
+        if text == "nondeterministic":
             raise HarnessError("function corpus entry is %s: %s" % (text, short))
         f = text.split("\t")
         ref = f[0]
